@@ -716,6 +716,41 @@ def run(tier):
                     fail('create:raises:' + type(ex).__name__, f'create_detected_image_sidd with the default ortho helper (ortho bounds from the {sca.sicd.RadarCollection.Area.Plane.XDir.NumLines} x '
                                                                f'{sca.sicd.RadarCollection.Area.Plane.YDir.NumSamples} area plane of a {sca.rows} x {sca.cols} image) raised {type(ex).__name__}: {ex}',
                          dict(case, traceback=traceback.format_exc()[-1500:]))
+            # steered block configurations: a block whose padded source window ends exactly at the image edge (exclusive upper bound 0) misses
+            # the image like any block further out.  The library's own block arithmetic is used to FIND such a configuration (steering only);
+            # the judgement is the usual one: creation succeeds and the pixels equal those of the first configuration
+            try:
+                from sarpy.processing.ortho_rectify import OrthorectificationIterator as _OI
+                steered = None
+                for dim_s in (0, 1):
+                    for t_s in range(1, 60):
+                        bs_s = t_s * 8 * (sca.cols if dim_s == 1 else sca.rows) / 1048576.0 * 1.0001
+                        it_s = _OI(_NN(sca.reader, index=0, pad_value=7), calculator=fetchers()['small'](sca.reader, dimension=dim_s, index=0, block_size=bs_s),
+                                   bounds=None, remap_function=make_remap(16, sca), recalc_remap_globals=False)
+                        for k_s in range(len(it_s._iteration_blocks)):
+                            it_s._this_index = k_s
+                            pb_s = it_s._get_state_parameters()[1]
+                            if pb_s[1] == 0 or pb_s[3] == 0:
+                                steered = {'mode': 'small', 'block_size': bs_s, 'dimension': dim_s, 'steered_block': k_s, 'padded_source_window': [int(u) for u in pb_s]}
+                                break
+                        if steered:
+                            break
+                    if steered:
+                        break
+            except Exception:
+                steered = None
+            stats['area_plane_steered_edge_block'] = int(steered is not None)
+            if steered is not None and outs:
+                case = {'scene': sca.cfg, 'geometry': 'area-plane-default-helper', 'block': steered, 'version': 2, 'proj': 'default helper', 'pad': 7, 'bounds': None, 'depth': 16}
+                products += 1
+                feats.add(('area-plane-default-helper', 'steered-edge-block', steered['dimension']))
+                try:
+                    prod_s = create_product(sca, None, 2, steered, None, 7, 16, tmp, name='area_steered.nitf', oh_factory=lambda: _NN(sca.reader, index=0, pad_value=7))
+                    outs.append((case, prod_s['img']))
+                except Exception as ex:
+                    fail('create:raises:' + type(ex).__name__, f'create_detected_image_sidd with the default ortho helper and blocks of about {steered["block_size"] * 1048576 / 8:.0f} samples along '
+                         f'dimension {steered["dimension"]} raised {type(ex).__name__}: {ex} (block {steered["steered_block"]} has the padded source window '
+                         f'{steered["padded_source_window"]}: it ends exactly at the image edge)', dict(case, traceback=traceback.format_exc()[-1500:]))
             for case, img in outs[1:]:
                 evaluations += img.size
                 if img.shape != outs[0][1].shape or not numpy.array_equal(img, outs[0][1]):
